@@ -1,11 +1,11 @@
 SPECIFICATION Spec
 CONSTANTS
   BUF = 32
-  MaxLines = 4
+  MaxLines = 3
   LimitN = 5
   MaxFds = 0
-  Guided = TRUE
-  TSet = {1, 2, 5, 8, 10, 12, 14, 15, 19, 16, 21, 22, 23}
+  Guided = FALSE
+  TSet = {1, 2, 3, 4, 5, 6, 7, 8, 9, 10, 11, 12, 13, 14, 15, 16, 17, 18, 19, 20, 21, 22, 23, 24}
 INVARIANTS Refines StructOK FreshAfterError BodyBound ContinueRule FilesOrdered AttachRule Witnesses
 PROPERTIES EmptyReadInert
 CHECK_DEADLOCK FALSE
